@@ -1,4 +1,6 @@
 import FitProps.FileDefLemmas
+import FitProps.FileDefContentLemmas
+import FitProps.C13
 import FitProps.ListenerLemmas
 /-! # C14 — File types conserve messages; the concurrent listener equals sequential building
 
@@ -9,82 +11,67 @@ namespace Fit.C14
 open Fit.FileDef Fit.FileDef.Generated
 
 /-- Obligation on the regenerated tables (all 17 file types): slot numbers are distinct, no message number is
-dropped, the observed kind of every slot (singleton / list) is the kind the exported struct declares, the first three slots are file_id (value), developer_data_id, field_description (lists), and the sort
-never starts inside this prefix. A file type that drops a message kind or moves the prefix breaks this. -/
+dropped, the observed kind of every slot (singleton / list) is the kind the exported struct declares, every typed field
+the struct declares is a slot `Add` fills (`declOnly = []`), the first three slots are file_id (value), developer_data_id,
+field_description (lists), and the sort never starts inside this prefix. A file type that drops a message kind, leaves a
+declared field unfilled or moves the prefix breaks this. -/
 theorem C14_tables_ok : ∀ T ∈ fileTypes, TableOK T := by decide
+
+/-! The file-type theorems are proved once for any representation of a message (`FileDef.Carrier`,
+`FitProps/FileDefLemmas.lean`, namespace `G`) and stated here twice: for the abstract messages `Msg` (the listener model
+and the digest family run on them) and, further below (`C14_content_…`), for real protocol messages, where the effect
+of the typed structs is C13's `typedNormal`. -/
+
+/-- `Sorted` / `withKey` / … of the abstract messages -/
+abbrev Sorted (l : List Msg) : Prop := G.Sorted absC l
+abbrev withKey (k : Option Nat) (l : List Msg) : List Msg := G.withKey absC k l
+abbrev hasFileId (msgs : List Msg) : Bool := G.hasFileId absC msgs
+abbrev OutputShape (T : FileType) (msgs : List Msg) (fid : Msg) (rest : List Msg) : Prop := G.OutputShape absC T msgs fid rest
+abbrev restEmission (T : FileType) (msgs : List Msg) : List Msg := G.restEmission absC T msgs
+abbrev restGroups (T : FileType) (f : File) : List (List Msg) := G.restGroups absC T f
 
 /-- **What a file keeps.** For every file type and every message list, the stored messages are exactly the input
 (each message normalised by its typed struct), minus the earlier occurrences of single-valued kinds
 (file_id, activity, user_profile, …: the last one added wins) — nothing else lost, nothing duplicated, arrival
 order kept within every kind. -/
 theorem C14_build_keeps_last {T : FileType} (hT : T ∈ fileTypes) (msgs : List Msg) :
-    build T msgs = keepLastDecl T (msgs.map (normT T)) := by
-  rw [keepLastDecl_eq (C14_tables_ok T hT)]; exact build_eq_keepLast (C14_tables_ok T hT) msgs
+    build T msgs = keepLastDecl T (msgs.map (normT T)) :=
+  G.build_keeps_last absC (C14_tables_ok T hT) msgs
 
 /-- **Conservation.** `ToFIT` of the built file is, as a multiset, exactly `keepLast` of the (normalised) input:
 no message lost or duplicated, singletons keep their last occurrence. (Input with a file_id message.) -/
 theorem C14_conservation {T : FileType} (hT : T ∈ fileTypes) (msgs : List Msg) (hfid : hasFileId msgs = true) :
-    (toFIT T (build T msgs)).Perm (keepLastDecl T (msgs.map (normT T))) := by
-  have hok := C14_tables_ok T hT
-  rw [keepLastDecl_eq hok]
-  have h1 := (toFIT_perm_emission T (build T msgs)).trans (emission_perm hok (build T msgs))
-  rw [build_eq_keepLast hok] at h1 ⊢
-  have hany : (keepLast T (msgs.map (normT T))).any (fun m => m.num == mesgNumFileId) = true := by
-    rw [keepLast_any, List.any_map]
-    simpa [hasFileId, Function.comp_def, normT_num] using hfid
-  simpa [hany] using h1
+    (toFIT T (build T msgs)).Perm (keepLastDecl T (msgs.map (normT T))) :=
+  G.conservation absC absC_lawful (C14_tables_ok T hT) msgs hfid
 
 /-- The code's behaviour on an input without file_id (stated exactly): the file struct holds `FileId` by value, so
 `ToFIT` emits one zero-valued file_id that was never added; everything else is conserved as above. -/
 theorem C14_conservation_no_file_id {T : FileType} (hT : T ∈ fileTypes) (msgs : List Msg) (hfid : hasFileId msgs = false) :
-    (toFIT T (build T msgs)).Perm (defaultMsg T mesgNumFileId :: keepLastDecl T (msgs.map (normT T))) := by
-  have hok := C14_tables_ok T hT
-  rw [keepLastDecl_eq hok]
-  have h1 := (toFIT_perm_emission T (build T msgs)).trans (emission_perm hok (build T msgs))
-  rw [build_eq_keepLast hok] at h1 ⊢
-  have hany : (keepLast T (msgs.map (normT T))).any (fun m => m.num == mesgNumFileId) = false := by
-    rw [keepLast_any, List.any_map]
-    simpa [hasFileId, Function.comp_def, normT_num] using hfid
-  simpa [hany] using h1
+    (toFIT T (build T msgs)).Perm (defaultMsg T mesgNumFileId :: keepLastDecl T (msgs.map (normT T))) :=
+  G.conservation_no_file_id absC absC_lawful (C14_tables_ok T hT) msgs hfid
 
 /-- **Prefix order.** The output starts with exactly one file_id message, then all developer_data_id messages, then
 all field_description messages (each in arrival order); no message of these three kinds occurs later. -/
 theorem C14_prefix_order {T : FileType} (hT : T ∈ fileTypes) (msgs : List Msg) :
-    ∃ fid rest, fid.num = mesgNumFileId ∧ OutputShape T msgs fid rest ∧ ∀ m ∈ rest, isPrefixNum m.num = false := by
-  have hok := C14_tables_ok T hT
-  obtain ⟨fid, hfn, hshape⟩ := output_shape hok msgs
-  refine ⟨fid, _, hfn, hshape, ?_⟩
-  intro m hm
-  apply mem_restGroups hok (build T msgs) m
-  have hperm : (((restGroups T (build T msgs)).take (T.sortFrom - 3)).flatten ++
-      sortStable ((restGroups T (build T msgs)).drop (T.sortFrom - 3)).flatten).Perm (restGroups T (build T msgs)).flatten := by
-    have : (restGroups T (build T msgs)).flatten = ((restGroups T (build T msgs)).take (T.sortFrom - 3)).flatten ++
-        ((restGroups T (build T msgs)).drop (T.sortFrom - 3)).flatten := by
-      rw [← List.flatten_append, List.take_append_drop]
-    rw [this]
-    exact List.Perm.append_left _ (sortStable_perm _)
-  exact hperm.mem_iff.mp hm
+    ∃ fid rest, fid.num = mesgNumFileId ∧ OutputShape T msgs fid rest ∧ ∀ m ∈ rest, isPrefixNum m.num = false :=
+  G.prefix_order absC absC_lawful (C14_tables_ok T hT) msgs
 
-/-- The sort itself, for every list: the result is a permutation, sorted by the key (`none` = no timestamp
-field least, then by uint32 value, invalid 0xFFFFFFFF last), and messages with equal keys keep their order. -/
-theorem C14_sort_stable (l : List Msg) :
-    (sortStable l).Perm l ∧ Sorted (sortStable l) ∧ ∀ k, withKey k (sortStable l) = withKey k l :=
-  ⟨sortStable_perm l, sortStable_sorted l, fun k => sortStable_withKey k l⟩
+/-- The sort itself, for every list (of any representation of messages): the result is a permutation, sorted by the key
+(`none` = no timestamp field least, then by uint32 value, invalid 0xFFFFFFFF last), and messages with equal keys keep
+their order. -/
+theorem C14_sort_stable {μ : Type} (C : Carrier μ) (l : List μ) :
+    (G.sortStable C l).Perm l ∧ G.Sorted C (G.sortStable C l) ∧ ∀ k, G.withKey C k (G.sortStable C l) = G.withKey C k l :=
+  ⟨G.sortStable_perm C l, G.sortStable_sorted C l, fun k => G.sortStable_withKey C k l⟩
 
 /-- The stable sorted arrangement is unique: whatever algorithm `slices.SortStableFunc` uses, if it returns a sorted
 list with the same per-key subsequences (= stable), it returns `sortStable l`. This is the only thing assumed of
 the standard library here. -/
-theorem C14_sort_unique (l l' : List Msg) (hs : Sorted l') (hst : ∀ k, withKey k l' = withKey k l) :
-    l' = sortStable l := sortStable_unique l l' hs hst
+theorem C14_sort_unique {μ : Type} (C : Carrier μ) (l l' : List μ) (hs : G.Sorted C l')
+    (hst : ∀ k, G.withKey C k l' = G.withKey C k l) : l' = G.sortStable C l := G.sortStable_unique C l l' hs hst
 
 /-- In a sorted list every message before a timestamp-less one is timestamp-less: timestamp-less messages come first. -/
-theorem C14_timestampless_first (a c : List Msg) (b : Msg) (hs : Sorted (a ++ b :: c)) (hb : key b = none) :
-    ∀ x ∈ a, key x = none := by
-  intro x hx
-  have := (List.pairwise_append.mp hs).2.2 x hx b (List.mem_cons_self)
-  unfold le at this
-  rw [hb] at this
-  exact keyLe_none_right this
+theorem C14_timestampless_first {μ : Type} (C : Carrier μ) (a c : List μ) (b : μ) (hs : G.Sorted C (a ++ b :: c))
+    (hb : C.key b = none) : ∀ x ∈ a, C.key x = none := G.timestampless_first C a c b hs hb
 
 /-- the full ordering demand of the property: for EVERY file type, everything after the prefix is the stable sort
 of the emission -/
@@ -99,11 +86,8 @@ segment_list) or nothing (workout): there `C14_sorted_stable_full` is false — 
 theorem C14_sorted_stable_partial {T : FileType} (hT : T ∈ fileTypes) (h3 : T.sortFrom = 3) (msgs : List Msg) :
     ∃ fid, OutputShape T msgs fid (sortStable (restEmission T msgs)) ∧
       Sorted (sortStable (restEmission T msgs)) ∧
-      (∀ k, withKey k (sortStable (restEmission T msgs)) = withKey k (restEmission T msgs)) := by
-  obtain ⟨fid, _, hshape⟩ := output_shape (C14_tables_ok T hT) msgs
-  rw [h3] at hshape
-  simp only [Nat.sub_self, List.take_zero, List.flatten_nil, List.nil_append, List.drop_zero] at hshape
-  exact ⟨fid, hshape, sortStable_sorted _, fun k => sortStable_withKey k _⟩
+      (∀ k, withKey k (sortStable (restEmission T msgs)) = withKey k (restEmission T msgs)) :=
+  G.sorted_stable_of_sortFrom3 absC absC_lawful (C14_tables_ok T hT) h3 msgs
 
 /-- **What every file type does** (any `sortFrom ≥ 3`): the groups before `sortFrom` stay in emission order, the
 groups from `sortFrom` on are stably sorted together. -/
@@ -111,7 +95,7 @@ theorem C14_sorted_suffix {T : FileType} (hT : T ∈ fileTypes) (msgs : List Msg
     ∃ fid, OutputShape T msgs fid
       (((restGroups T (build T msgs)).take (T.sortFrom - 3)).flatten ++
         sortStable ((restGroups T (build T msgs)).drop (T.sortFrom - 3)).flatten) := by
-  obtain ⟨fid, _, h⟩ := output_shape (C14_tables_ok T hT) msgs
+  obtain ⟨fid, _, h⟩ := G.output_shape absC absC_lawful (C14_tables_ok T hT) msgs
   exact ⟨fid, h⟩
 
 /-- non-vacuity: a message list with a file_id (hypothesis of `C14_conservation`), one without; the activity file type is
@@ -144,6 +128,154 @@ theorem C14_KF2_witness :
     (toFIT pinnedWorkout (build pinnedWorkout kf2Msgs)).drop 1 ≠
       sortStable ((restGroups pinnedWorkout (build pinnedWorkout kf2Msgs)).flatten)
     ∧ sortedB ((toFIT pinnedWorkout (build pinnedWorkout kf2Msgs)).drop 1) = false := by decide
+
+/-! ### The file types on real protocol messages: the link to C13
+
+`FitModel/FileDefContent.lean` models `Add` / `ToFIT` on `Fit.Msg.Message` as the code does them: `Add` stores
+`mesgdef.NewXxx(&mesg)` = `Typed.ofMesg T mesg` for the message numbers the file type has typed fields for (the other
+messages verbatim), `ToFIT` emits `Typed.toMesg T fac o st` and sorts on the emitted messages. By C13
+(`C13_mesg_struct_mesg`, for the regenerated tables: `C13_tables_wf`) that is the generic layer applied to the
+**normal forms** `normC` = `typedNormal` (typed kinds) / identity (unrelated kinds) — so "alters none beyond the
+typed-message normalisation" is a theorem, and conservation / prefix / ordering hold of real messages.
+Quantifiers: every file type of the regenerated table, every factory `fac`, both settings of IncludeExpandedFields,
+every message list whose fields have a `FieldBase` (`C14_content_no_panic`; a typed message with a nil `FieldBase`
+panics in `Add`: `C14_content_nil_fieldbase_panics`). -/
+section Content
+open Fit.FileDef.Content Fit.Typed Fit.Msg
+
+/-- Obligation on the regenerated tables: every typed slot of every file type has its `mesgdef` table among the 119
+regenerated ones. -/
+theorem C14_content_tables_ok : ∀ FT ∈ fileTypes, slotsTyped FT = true := by decide +kernel
+
+theorem C14_content_no_panic {FT : FileType} (ms : List Message) (hb : allBased ms = true) :
+    ∃ f, buildC FT ms = .ok f :=
+  buildFrom_ok C13.C13_tables_wf FT ms hb []
+
+/-- the one way `Add` panics: a message the file type converts to a typed struct carries a field without `FieldBase`
+(`NewXxx` dereferences it — C13; no decoder and no factory produces such a field) -/
+theorem C14_content_nil_fieldbase_panics {FT : FileType} (f : List Stored) (m : Message) (T : MesgTable)
+    (hT : typedTable FT m.num = some T) (hn : ∃ fl ∈ m.fields, fl.base = none) : addC FT f m = .panic :=
+  addC_panics FT f m T hT hn
+
+/-- **The code-shaped model computes the generic layer on normal forms**: storing structs and converting them back
+is normalising each message with `normC` when it is added. -/
+theorem C14_content_model_eq (fac : Nat → Nat → Field) (o : Options) (FT : FileType) (ms : List Message)
+    (f : List Stored) (h : buildC FT ms = .ok f) :
+    toFITC fac o FT f = G.toFIT (msgC fac o) FT (G.build (msgC fac o) FT ms) :=
+  toFITC_buildC C13.C13_tables_wf fac o FT ms f h
+
+/-- what `normC` is, spelled out: for a message number the file type has a typed field for, C13's `typedNormal` with
+the regenerated table of that message type (invalid-valued and mismatched fields omitted, last occurrence wins,
+fixed-length arrays padded / cut, known fields in profile order, unknown and developer fields kept, expanded marks kept
+or the marked field dropped according to the option); for any other number, the message itself -/
+theorem C14_content_norm {FT : FileType} (hT : FT ∈ fileTypes) (fac : Nat → Nat → Field) (o : Options) (m : Message) :
+    ((slotOf FT m.num).isSome = true ∧ ∃ T ∈ Gen.Mesgdef.tables, T.num = m.num ∧ T.wf = true ∧
+        normC fac o FT m = typedNormal T (fac m.num) o m) ∨
+    (slotOf FT m.num = none ∧ normC fac o FT m = m) := by
+  cases hs : slotOf FT m.num with
+  | none => exact Or.inr ⟨rfl, by unfold normC; rw [typedTable_none_of_no_slot hs]⟩
+  | some s =>
+    left
+    refine ⟨rfl, ?_⟩
+    have hst := List.all_eq_true.mp (C14_content_tables_ok FT hT) s (G.slotOf_mem hs).1
+    rw [(G.slotOf_mem hs).2] at hst
+    obtain ⟨T, hTab⟩ := Option.isSome_iff_exists.mp hst
+    have hmem := tableOf_mem hTab
+    refine ⟨T, hmem.1, hmem.2, C13.C13_tables_wf T hmem.1, ?_⟩
+    simp only [normC, typedTable, hs, hTab, hmem.2]
+
+/-- **Content.** Every message `ToFIT` returns is the typed normal form of an input message (typed kinds), or an input
+message itself, unaltered (unrelated kinds) — or the zero-valued file_id of a file to which none was added. -/
+theorem C14_content_is_typed_normal {FT : FileType} (hT : FT ∈ fileTypes) (fac : Nat → Nat → Field) (o : Options)
+    (ms : List Message) (f : List Stored) (h : buildC FT ms = .ok f) :
+    ∀ m' ∈ toFITC fac o FT f,
+      (∃ m ∈ ms, m' = normC fac o FT m) ∨
+      (G.hasFileId (msgC fac o) ms = false ∧ m' = defaultC fac o mesgNumFileId) := by
+  intro m' hm'
+  rw [C14_content_model_eq fac o FT ms f h] at hm'
+  have hok := C14_tables_ok FT hT
+  cases hfid : G.hasFileId (msgC fac o) ms with
+  | true =>
+    left
+    have hp := G.conservation (msgC fac o) (msgC_lawful fac o) hok ms hfid
+    have := mem_keepLastDecl _ _ _ _ (hp.mem_iff.mp hm')
+    obtain ⟨m, hm, rfl⟩ := List.mem_map.mp this
+    exact ⟨m, hm, rfl⟩
+  | false =>
+    have hp := G.conservation_no_file_id (msgC fac o) (msgC_lawful fac o) hok ms hfid
+    rcases List.mem_cons.mp (hp.mem_iff.mp hm') with rfl | hmem
+    · exact Or.inr ⟨rfl, rfl⟩
+    · left
+      have := mem_keepLastDecl _ _ _ _ hmem
+      obtain ⟨m, hm, rfl⟩ := List.mem_map.mp this
+      exact ⟨m, hm, rfl⟩
+
+/-- **The first sentence of the property, on real messages** (for every file type; the ordering clause for the file
+types that sort from the end of the prefix — the others are KF-C14-2, see `C14_sorted_stable_partial`).
+With `N` = the typed-message normalisation `normC` and an input that contains a file_id:
+1. *neither loses nor duplicates any message, singletons keep their last occurrence, alters none beyond the
+   normalisation*: the output is a permutation of `keepLastDecl (ms.map N)`;
+2. *file_id first, then developer-data-id and field-description messages*, none of these later;
+3. *the rest ordered stably by timestamp, timestamp-less first*: the rest is THE stable sort (`C14_sort_unique`) of the
+   emission of the remaining messages — sorted by `keyOf` (`none` least), equal keys in emission order. -/
+theorem C14_content_first_sentence_partial {FT : FileType} (hT : FT ∈ fileTypes) (fac : Nat → Nat → Field) (o : Options)
+    (ms : List Message) (f : List Stored) (h : buildC FT ms = .ok f) (hfid : G.hasFileId (msgC fac o) ms = true) :
+    let C := msgC fac o
+    (toFITC fac o FT f).Perm (G.keepLastDecl C FT (ms.map (normC fac o FT))) ∧
+    (∃ fid rest, fid.num = mesgNumFileId ∧
+      toFITC fac o FT f = fid :: ((G.build C FT ms).filter (fun m : Message => m.num == mesgNumDeveloperDataId) ++
+        ((G.build C FT ms).filter (fun m : Message => m.num == mesgNumFieldDescription) ++ rest)) ∧
+      (∀ m ∈ rest, isPrefixNum m.num = false) ∧
+      (FT.sortFrom = 3 → rest = G.sortStable C (G.restEmission C FT ms) ∧ G.Sorted C rest ∧
+        ∀ k, G.withKey C k rest = G.withKey C k (G.restEmission C FT ms))) := by
+  intro C
+  have hok := C14_tables_ok FT hT
+  have hL := msgC_lawful fac o
+  rw [C14_content_model_eq fac o FT ms f h]
+  refine ⟨G.conservation C hL hok ms hfid, ?_⟩
+  obtain ⟨fid, hfn, hshape⟩ := G.output_shape C hL hok ms
+  refine ⟨fid, _, hfn, hshape, ?_, ?_⟩
+  · obtain ⟨fid', rest', _, hshape', hrest'⟩ := G.prefix_order C hL hok ms
+    unfold G.OutputShape at hshape hshape'
+    rw [hshape] at hshape'
+    have hr := List.append_cancel_left (List.append_cancel_left (List.cons.inj hshape').2)
+    rw [hr]; exact hrest'
+  · intro h3
+    rw [h3]
+    simp only [Nat.sub_self, List.take_zero, List.flatten_nil, List.nil_append, List.drop_zero]
+    exact ⟨rfl, G.sortStable_sorted C _, fun k => G.sortStable_withKey C k _⟩
+
+/-- the same for an input without file_id: one zero-valued file_id (`mesgdef.FileId{}.ToMesg`) is emitted in front -/
+theorem C14_content_conservation_no_file_id {FT : FileType} (hT : FT ∈ fileTypes) (fac : Nat → Nat → Field) (o : Options)
+    (ms : List Message) (f : List Stored) (h : buildC FT ms = .ok f) (hfid : G.hasFileId (msgC fac o) ms = false) :
+    (toFITC fac o FT f).Perm
+      (defaultC fac o mesgNumFileId :: G.keepLastDecl (msgC fac o) FT (ms.map (normC fac o FT))) := by
+  rw [C14_content_model_eq fac o FT ms f h]
+  exact G.conservation_no_file_id (msgC fac o) (msgC_lawful fac o) (C14_tables_ok FT hT) ms hfid
+
+/-- non-vacuity (and what the normalisation does, on the activity file type): a record whose power is invalid and whose
+`[3]byte` array is one short, two file_id messages (the second with an invalid serial number), an unrelated message of
+number 9999 with a timestamp. `buildC` does not panic; the output is: the LAST file_id without its invalid field, the
+unrelated message untouched (its "invalid" 65535 is not the typed layer's business) and sorted before the record, the
+record without power and with the array padded with 0xFF. -/
+def exContent : List Message := [
+  { num := 20, fields := [{ base := some (stdBase 20 253), value := .uint32 2000 }, { base := some (stdBase 20 7), value := .uint16 65535 },
+      { base := some (stdBase 20 8), value := .sliceUint8 [1, 2] }], devFields := [] },
+  { num := 0, fields := [{ base := some (stdBase 0 0), value := .uint8 4 }, { base := some (stdBase 0 1), value := .uint8 4 }], devFields := [] },
+  { num := 9999, fields := [{ base := some (unknownBase 253), value := .uint32 1000 }, { base := some (unknownBase 7), value := .uint16 65535 }], devFields := [] },
+  { num := 0, fields := [{ base := some (stdBase 0 0), value := .uint8 4 }, { base := some (stdBase 0 3), value := .uint32 0 }], devFields := [] }]
+
+example : allBased exContent = true ∧ G.hasFileId (msgC stdField { includeExpanded := false }) exContent = true ∧
+    (match buildC ft4 exContent with
+     | .ok f => (toFITC stdField { includeExpanded := false } ft4 f).map
+         (fun m => (m.num, m.fields.map fun f => ((f.base.map (·.num)).getD 999, f.value)))
+     | .panic => []) =
+    [(0, [(0, Value.Value.uint8 4)]),
+     (9999, [(253, .uint32 1000), (7, .uint16 65535)]),
+     (20, [(253, .uint32 2000), (8, .sliceUint8 [1, 2, 255])])] := by
+  decide +kernel
+
+end Content
 
 /-! ## Second half: the concurrent listener (`Fit.Listener`, a transition system over listener.go)
 
